@@ -15,6 +15,7 @@ def run(tier, seed, limit=0):
     if limit:
         scs = scs[:limit]
     chk.run_scenarios(scs, "Trace_VscRand")
+    chk.run_mc("MC_VscRand", {"MaxLevel": 4 if tier == "quick" else 6}, workers=12, label="A-level API machine on world W-flags")
     return chk.finish(LEVEL, "families N (non-random operands / folded conditions), D (unsat and |Sol|=1 duals), R (seeded random "
                       "programs), S; every program: calls + exhaustive pin-probe truth table judged row by row against Sol; "
                       "non-trivial = accepted scenario with distinct event content",
